@@ -36,7 +36,7 @@ func needSpace(a, b string) bool {
 	return false
 }
 
-var c18Seps = []string{" ", " ", "\t", "\n", "\r\n", "  ", " \n ", "\n\n", " # note\n", "\n# a comment with \"quote\" and %\n", "\t \t", " # one\n # two\n", "\n# a\n\n# b\n# c\n", " # crlf one\r\n# crlf two\r\n", " #\n"}
+var c18Seps = []string{" ", " ", "\t", "\n", "\r\n", "  ", " \n ", "\n\n", " # note\n", "\n# a comment with \"quote\" and %\n", "\t \t", " # one\n # two\n", "\n# a\n\n# b\n# c\n", " # crlf one\r\n# crlf two\r\n", " #\n", " # it's\n", "\n# 'x\n"}
 
 func gap(r *core.Rng, a, b string, allowGlue bool) string {
 	if allowGlue && !needSpace(a, b) && r.Chance(1, 3) {
@@ -68,7 +68,7 @@ func (p *pProg) relayout(r *core.Rng) (string, map[string]bool) {
 	}
 	commentTag := func() {
 		if r.Chance(1, 6) {
-			sb.WriteString("<%#" + pick(r, []string{" note ", "", " multi\nline ", " # hash \"q\" ", " let x = 1 "}) + "%>")
+			sb.WriteString("<%#" + pick(r, []string{" note ", "", " multi\nline ", " # hash \"q\" ", " let x = 1 ", " it's the loop's end ", " don't ", " `tick and 'single ", " {([ "}) + "%>")
 			used["comment-tag"] = true
 		}
 	}
